@@ -87,6 +87,10 @@ func (criteria *SearchCriteria) And(other *SearchCriteria) {
 
 	criteria.Not = append(criteria.Not, other.Not...)
 	criteria.Or = append(criteria.Or, other.Or...)
+
+	if other.ModSeq != nil && (criteria.ModSeq == nil || other.ModSeq.ModSeq > criteria.ModSeq.ModSeq) {
+		criteria.ModSeq = other.ModSeq
+	}
 }
 
 func intersectSince(t1, t2 time.Time) time.Time {
